@@ -211,9 +211,26 @@ static int print_f(void (*printchar_handler)(void *d, int c),
     int pc, i, ch, len, prefix_len, postfix_len, pad_count, sign_count,
         zero_left, letter_base;
 
-    if (isnan(r))
+    /* infinities and NaN have no digits: [sign]inf / [sign]nan, blank padded */
+    if (isnan(r) || isinf(r))
     {
-        r = 0.0;
+        i = 0;
+        if (signbit(r))
+            buff[i++] = '-';
+        else if (ops & OPS_FLAG_WITH_SIGN)
+            buff[i++] = '+';
+        else if (ops & OPS_FLAG_EXTRA_SPACE)
+            buff[i++] = ' ';
+        strcpy(&buff[i],
+               isnan(r) ? ops & OPS_SPEC_UPPER_CASE ? "NAN" : "nan"
+               : ops & OPS_SPEC_UPPER_CASE ? "INF"
+                                           : "inf");
+        return print_s(printchar_handler,
+                       printchar_data,
+                       buff,
+                       width,
+                       0,
+                       ops & OPS_FLAG_LEFT_ALIGN);
     }
 
     postfix = end = str = &buff[0] + sizeof buff / sizeof buff[0] - 1;
